@@ -48,10 +48,15 @@ def optz(x):
     return 'N' if x is None else str(int(x))
 
 
+def t8(x):
+    """times and time bounds go to the model in eighths of a second"""
+    return 'N' if x is None else str(int(round(float(x) * 8)))
+
+
 def tr_tokens(tr):
     if tr is None:
         return ['N', 'N', '0']
-    return [optz(tr[0]), optz(tr[1]), '1' if tr[2] else '0']
+    return [t8(tr[0]), t8(tr[1]), '1' if tr[2] else '0']
 
 
 def optlist(xs, f=str):
@@ -70,18 +75,15 @@ def call_tokens(c):
 
 def model_line(log, avail, tt, nn, history, geom=None):
     """geom None: table mode (J).  geom given: linked mode (K) - the reader is the C10/C11 model, times in eighths"""
-    sc = 8 if geom else 1
     t = ['K' if geom else 'J', str(len(log))]
     for i, m in enumerate(log):
         ev = m['t'] == 'EVENT_NOTIFICATION'
-        t += [str(i), str(tnum(m['t'])), str(int(m['src'])), 'N' if (ev or m['p1'] is None) else str(int(m['p1']) * sc),
+        t += [str(i), str(tnum(m['t'])), str(int(m['src'])), 'N' if (ev or m['p1'] is None) else t8(m['p1']),
               '0' if ev else '1', '1' if ev else '0', '1']
         if geom:
             t += [str(geom['off'][i]), str(geom['size'][i])]
     if geom:
         t += [str(geom['fsize'])]
-        history = [dict(c, tr=None if c['tr'] is None else [None if c['tr'][0] is None else c['tr'][0] * 8,
-                                                            None if c['tr'][1] is None else c['tr'][1] * 8, c['tr'][2]]) for c in history]
     t += [str(len(avail))] + [str(a) for a in avail]
     trs = []
     for k, sel in tt.items():
@@ -116,7 +118,7 @@ def rid(x):
     _, tn, tm = x.split(':')                      # D:<type name>:<time repr>
     try:
         f = float(tm)
-        ts = 'N' if f != f else str(int(f))
+        ts = 'N' if f != f else str(int(round(f * 8)))     # eighths of a second, as in the model
     except ValueError:
         ts = 'N'
     return 'd%d@%s' % (tnum(tn), ts)
@@ -353,6 +355,13 @@ def make_jobs(ctx):
     for lg in (G.interleaved_log(), fixed):
         for i in range(0, len(aba), 300):
             jobs.append({'log': lg, 'histories': aba[i:i + 300]})
+    # "equal-looking" argument pairs on logs whose first P1 time is not 0 / not a whole second
+    for lg in (G.lookalike_log(False), G.lookalike_log(True)):
+        la = G.lookalike_histories(lg)
+        if not ctx.thorough:
+            la = la[::2] if lg[1]['p1'] == int(lg[1]['p1']) else la[1::2]
+        for i in range(0, len(la), 300):
+            jobs.append({'log': lg, 'histories': la[i:i + 300]})
     nlogs, per, L = (160, 120, 5) if ctx.thorough else (48, 50, 3)
     for i in range(nlogs):
         log = G.gen_log(r, late_source=(i % 8 == 7))
@@ -424,7 +433,7 @@ def run(ctx):
         ctx.sample({'log': [(m['t'], m['p1'], m['src']) for m in j['log']], 'history': [short(c) for c in j['histories'][0]],
                     'impl': [show_impl(o)[:200] for o in res[-1]['hist'][0]]})
     ctx.coverage['rule'] = ('corpus (minimised past failures) first; on the 10-message log of the library\'s own loader test every ordered pair%s over a 40-call alphabet '
-                            '(types x max_messages x numpy/keep_messages, alignment, require_p1_time, in-order); the structured family A ; B ; A (A over a type set S with a maximum of either sign / numpy / alignment, B re-reading a proper subset of S with other parameters, so the second A meets a partially valid cache) on that log and on a 16-message log interleaving four types; then %d generated logs (5-14 messages of 4 types, '
+                            '(types x max_messages x numpy/keep_messages, alignment, require_p1_time, in-order); the structured family A ; B ; A (A over a type set S with a maximum of either sign / numpy / alignment, B re-reading a proper subset of S with other parameters, so the second A meets a partially valid cache) on that log and on a 16-message log interleaving four types; pairs of equal-looking argument values (same bounds as relative / absolute range in object, string, tuple and Timestamp form; the same types as list / set / tuple / classes / single value; max_messages N vs -N; no source_ids vs the full set) as A;B, B;A, A;B;A on two logs whose first P1 time is 3 s resp. 2.5 s; then %d generated logs (5-14 messages of 4 types, first P1 time never 0 and often fractional, '
                             'invalid P1 stamps, 1-2 source ids; every 8th log has 24-30 messages and a source id first seen after the reader\'s sampling window) x %d histories '
                             'of 2..%d read() calls whose later calls are mostly one-argument mutations of earlier ones (so cache keys collide; 30%% of the histories of length >= 3 are random members of the A ; B ; A family). Every call of every history is '
                             'compared with the same call on a fresh loader (SPEC oracle), with the extracted MODEL (after the same history, and fresh) and its messages with the '
